@@ -2,7 +2,7 @@
 # tools/try_mutant.sh <patch.diff> <property id> [extra check args]  — apply a patch to /repo, run the check, undo.
 set -u
 patch="$1"; pid="$2"; shift 2
-git -C /repo apply "$patch" || { echo "patch does not apply"; exit 3; }
+git -C /repo apply "$(realpath "$patch")" || { echo "patch does not apply"; exit 3; }
 trap 'git -C /repo checkout -- . ; cd /verif && /venv/bin/python tools/translate.py >/dev/null' EXIT
 cd /verif && ./check "$pid" "$@"
 echo "exit=$?"
